@@ -34,6 +34,7 @@ func runC02(c *Ctx) {
 	c02R8(c)
 	c01R8As(c, c.R.Rule("R9", "K3/K6 (= C01.R8) nothing is acked past an unhandled record: the source ack of a nacked record lies behind the DLQ write's success edge, a failed DLQ hand-off fails the nack (v1), and the v2 ack covers exactly the stored prefix", 6))
 	c04R3As(c, c.R.Rule("R10", "K5/K2/K3 (= C04.R3) v2 fan-out release cursor: `released` advances only after the parent call for that position succeeded, under m.mu, never past a non-terminal position", 30))
+	c05SharedDest(c, c.R.Rule("R12", "K4/K3 (= C05.R4) v2 shared destination: a worker enters a shared subtree only under sharedMu and re-checks the poison flag after acquiring it — it never takes a failed pass's leftover reply as the confirmation of its own record", 6))
 	livePersisted(c, c.R.Rule("R11", "K8 (= C17.R7) the connector record that carries the position is persisted from the live instance or a complete copy", 10))
 }
 
@@ -177,6 +178,11 @@ func c02R2(c *Ctx) {
 		c.R.Fail(r, "onPersistFlushed: queue append", c.Pos(fn.Pos()), "no append to deferredAckQueue found")
 	}
 	c.Dominated(r, "onPersistFlushed: queue append only when the flush succeeded", appends, gErr, "the err==nil edge of the flush result")
+	// the durable watermark only moves for a flush that succeeded (a failed flush must not make older
+	// queued acks look durable to a later success callback)
+	if dF := c.Field(r, pConn, "Source", "durableAckSeq"); dF != nil {
+		c.Dominated(r, "onPersistFlushed: durableAckSeq advanced only when the flush succeeded", storesToField(fn, dF, nil), gErr, "the err==nil edge of the flush result")
+	}
 	gSeq := kit.NewGates().AddEdges(kit.CmpEdges(fn, func(b *ssa.BinOp) (bool, bool) {
 		isSeq := func(v ssa.Value) bool { return kit.IsFieldLoad(v, seqF) }
 		isDur := func(v ssa.Value) bool { return kit.IsFieldLoad(v, dur) }
